@@ -344,7 +344,7 @@ def check_atheris(case):
 
 SUBCHECKS = [
     Sub("shipped", check_shipped, enumerate=shipped_cases, note="all shipped topologies"),
-    Sub("generated", check_text, strategy=lambda tier: text_case(), quick=1500, thorough=40000,
+    Sub("generated", check_text, strategy=lambda tier: text_case(), quick=3000, thorough=160000,
         min_share={"repeat": 0.2, "empty-comment": 0.2, "multi-comment": 0.15}),
     Sub("atheris", check_atheris, enumerate=atheris_cases, tiers=("thorough",),
         note="libFuzzer bytes -> Hypothesis strategy (fuzz_one_input) -> same oracle; 16 campaigns of 15000 runs"),
